@@ -1083,8 +1083,12 @@ class Models:
             res = self.call_builtin(ip, name, args, rest, node, fr)
             self.inplace_update(ip, out, res)
             return out
-        if name.startswith("numpy.") and any(k in kwargs for k in ("where", "casting", "order", "subok")):
-            raise Unsupported(f"{name} with keyword(s) {sorted(kwargs)}")
+        if name.startswith("numpy."):
+            # keyword arguments change what a NumPy call means: only the ones the model table interprets are let through
+            allowed = {"dtype", "nan", "posinf", "neginf", "copy", "atol", "rtol", "ord", "k", "a_min", "a_max", "start", "stop", "count"}
+            extra = [k for k in kwargs if k not in allowed]
+            if extra:
+                raise Unsupported(f"{name} with keyword(s) {sorted(extra)} (not interpreted by the NumPy model table)")
         h = getattr(self, "b_" + name.replace(".", "_"), None)
         if h is not None:
             return h(ip, args, kwargs, node)
@@ -1476,6 +1480,10 @@ class Models:
 
     def b_numpy_fromiter(self, ip, a, kw, node):
         S = self.as_seq_iter(ip, a[0])
+        if kw.get("count") is not None:
+            # count = number of items to read: the model covers the usual case count == len(iterable) only
+            if not ip.path.entails(sym.to_real(num_term(kw["count"])) == sym.to_real(self.len_term(S.n))):
+                raise Unsupported("np.fromiter with a count that is not the length of the iterable")
         return SSeq(S.n, lambda k: self.np_scalar(S.get(k)) if self.isnum(S.get(k)) else S.get(k), "ndarray", "fromiter")
 
     def b_numpy_linalg_norm(self, ip, a, kw, node):
